@@ -597,3 +597,15 @@ Example c15_frame_inhabited :
   let c := {| bpp := 4; save_e := ident 4; load_e := ident 4 |} in
   rt_ok c spec_rgba = true /\ decode_frame c (encode_frame c [[1; 2; 3; 4]; [5; 6; 7; 8]]) = [[1; 2; 3; 4]; [5; 6; 7; 8]].
 Proof. exact frame_inhabited. Qed.
+
+(** ** Round 4: the frame table.  Every site of vtf.py that addresses [_frames] with a key (VTF.__init__, read, save,
+    compute_mipmaps, get) is regenerated with the ROLE of each key element ([gen_key_sites]; roles from the loop that binds the
+    name / the parameter it comes from); [key_ok] per site is an instance obligation. *)
+Open Scope Z_scope.
+Theorem c15_every_frame_key_agrees :
+  forallb (fun k => key_ok (snd k)) gen_key_sites = true ->
+  forall p q, In p gen_key_sites -> In q gen_key_sites ->
+  forall f s m o o', key_of (snd p) f s m o = [f; s; m] /\ key_of (snd q) f s m o' = key_of (snd p) f s m o.
+Proof. exact gen_every_frame_key_agrees. Qed.
+Theorem c15_swapped_key_refuted : key_ok [KMip; KSide; KFrame] = false /\ key_of [KMip; KSide; KFrame] 0 0 1 0 = [1; 0; 0].
+Proof. exact swapped_key_refuted. Qed.
